@@ -270,7 +270,9 @@ def c33 (cfg : Cl.Cfg) (tr : List CE) (tEnd : Nat) : List Viol :=
   let pingresps : List Nat := (snIns tr).filterMap fun (t, p) => if p == .pingresp then some t else none
   let deadFrom : Nat := ((kaPings.filterMap fun t =>
       let lim := t + (cfg.rc + 1) * cfg.rd
-      if pingresps.any (fun tp => tp > t && tp ≤ lim) then none else some lim).foldl min tEnd)
+      -- (an exchange stopped because the client left `active` meanwhile does not end the client)
+      if pingresps.any (fun tp => tp > t && tp ≤ lim) || states.any (fun (ts, s) => ts > t && ts ≤ lim && s != .active)
+      then none else some lim).foldl min tEnd)
   -- a Ping() of the application while a keep-alive PINGREQ is unanswered takes over the single PINGREQ
   -- slot and the PINGRESP (known finding): the orphaned keep-alive exchange can neither be answered nor stopped
   let takenOverBefore := fun (t : Nat) =>
